@@ -106,7 +106,7 @@ theorem substituteCore_cert (h : NNet) (c : Nat) (m : NNet) (sh : Shape) (dn : N
     refine
       { hwf := hw, mwf := mw, hc := hc, hio := hio, shape := hs, des := hd, dnNotPort := hdn, ioNodup := hnd,
         portNotSeq := hps, portFork := hpf, insLen := hil, noIgn := ?_, outsAll := ?_,
-        nsize := by rw [hN5]; exact iv.nsize, frameNode := fr.node, io' := po.2.trans iv.io,
+        nsize := by rw [hN5]; exact iv.nsize, frameNode := fr.node, io' := po.2.trans iv.io, keyFrame := ?_,
         mapM := ?_, mapGe := hmge, mapLt := by rw [hN5]; exact iv.mapLt, mapInj := iv.mapInj, mapDom := ?_,
         mapDn := iv.mapDn, kind' := ?_, lsize := by subst e; exact hsz5.trans hL3,
         drvFrame := ?_, rdrFrame := ?_, inWire := win, outWire := wout, newLine := ?_ }
@@ -122,6 +122,18 @@ theorem substituteCore_cert (h : NNet) (c : Nat) (m : NNet) (sh : Shape) (dn : N
       cases ho : (h.net.node c).outs[k] with
       | none => rw [ho] at hsome; exact absurd hsome (by simp)
       | some ll => exact ⟨ll, by simp [instOut, List.getD_eq_getElem?_getD, List.getElem?_eq_getElem hklt, ho]⟩
+    · intro d hd'
+      show (h5.names.getD d "", (h5.net.node d).isFork) = (h.names.getD d "", (h.net.node d).isFork)
+      rw [hnames5, iv.nameHost d hd']
+      by_cases e1 : d = c
+      · subst e1
+        have : (h5.net.node d).isFork = (m.net.node dn).isFork := by
+          have := hkind5 d
+          rw [iv.cell] at this
+          simp [NodeD.isFork, this]
+        rw [this, hdnf hdn, hcf]
+      · have : h5.net.node d = h.net.node d := fr.node d hd' e1
+        rw [this]
     · intro j x hx
       apply Classical.byContradiction; intro hge
       have : map.getD j none = none := by
